@@ -37,6 +37,11 @@ DocumentedDiagram(d) ==
     /\ \A r \in Refs(d) : r.how = "alias" => AliasOf(d, r.comp) # ""      \* alias declared somewhere (any line order)
     /\ \A x \in ArrowsOf(d) : x.left.comp # x.right.comp                   \* no self-arrows
 
+\* the file around the diagram lines: which of the two tags it has, and in which order.  C06: a file without the
+\* start/end tags is rejected - only a start tag FOLLOWED by an end tag delimits a diagram
+TagForms == {"both", "none", "start_only", "end_only", "reversed"}
+WellTagged(tf) == tf = "both"
+
 (* ------------------------------------------------------------------ C07 *)
 \* comps : set of component names; deps : set of <<dependor, dependee>>; base : prefix (<<>> = names are qualified)
 ModOf(base, c) == base \o c
